@@ -78,9 +78,9 @@ theorem Fr.view {k : Nat} {w W : World} (h : Inv w) (f : Fr k (oldParams w k) w 
 
 /-! ## Per operation -/
 
-theorem aliasConstraints_get (w : World) (i1 i2 j : ObjId) (h1 : j ≠ i1) (h2 : j ≠ i2) :
-    (aliasConstraints w i1 i2).w.heap.get j = w.heap.get j := by
-  simp only [aliasConstraints]
+theorem aliasConstraintsL_get (w : World) (i1 i2 j : ObjId) (h1 : j ≠ i1) (h2 : j ≠ i2) :
+    (aliasConstraintsL w i1 i2).w.heap.get j = w.heap.get j := by
+  simp only [aliasConstraintsL]
   split
   · rfl
   · split
@@ -94,6 +94,12 @@ theorem aliasConstraints_get (w : World) (i1 i2 j : ObjId) (h1 : j ≠ i1) (h2 :
         · simp [h2]
         · simp [h1, h2]
     · rfl
+
+
+theorem aliasConstraints_get (w : World) (i1 i2 j : ObjId) (h1 : j ≠ i1) (h2 : j ≠ i2) :
+    (aliasConstraints w i1 i2).w.heap.get j = w.heap.get j := by
+  rcases aliasConstraints_cases w i1 i2 with h | h <;> rw [h]
+  exact aliasConstraintsL_get w i1 i2 j h1 h2
 
 theorem aliasPair_fr {w : World} (h : Inv w) {k : Nat} {o : Obj} (ho : w.objs k = some o) (p1 p2 : String) :
     Fr k o.params w (aliasPair w k p1 p2).w ∧
